@@ -80,6 +80,10 @@ STREAM_TEXTS = (
     ("lf", "(a)\n(b)\n"), ("crlf", "(a)\r\n(b)\r\n"), ("lf/no-final-newline", "(a)\n(b)"), ("crlf/no-final-newline", "(a)\r\n(b)"),
     ("empty", ""), ("blank-lines", "\n\n(x)\n"), ("crlf/blank-lines", "\r\n\r\n(x)\r\n"), ("indent-and-tab", "  (a\n\t b)\n"),
     ("non-ascii", "(λ \"é\")\n"), ("one-line", "(a)"), ("comment-last", "(a) ; c"),
+    # blanks at the end of a line that belong to a token: the character #\space as the last token of a line, a string and a
+    # |symbol| with blanks before a raw line break
+    ("character-space-at-line-end", "(list #\\ \n 1)\n"), ("blanks-before-a-line-break-in-a-string", "\"ab  \ncd\"\n"),
+    ("blanks-before-a-line-break-in-a-symbol", "|p \t\nq|\n"),
 )
 
 
